@@ -58,7 +58,11 @@ def cases(draw, method=None):
         data = draw(st.lists(elements(dtype), min_size=n, max_size=n))
     if method == "average":
         factors = [draw(st.sampled_from([1, 2])) for _ in range(3)]
-        outside = draw(st.sampled_from([None, None, 0, 255, 0.5, 1000, 70000]))
+        # (the last ones are not dyadic: the mean of a border block then
+        # lies just beside a tie or an integer)
+        outside = draw(st.sampled_from([None, None, 0, 255, 0.5, 1000, 70000,
+                                        1e-6, 0.001, 254.999, 0.3, -0.001,
+                                        65534.999]))
     else:
         factors = [draw(st.integers(1, 4)) for _ in range(3)]
         outside = None
@@ -215,6 +219,17 @@ def check_case(ctx, case):
                         else:
                             e = dtype_ref.to_int_type(m, case["dtype"])
                             ok = g == e
+                            if not ok and outside is not None and \
+                                    float(outside) != int(outside * 2) / 2:
+                                # a non-dyadic outside value: the float64 sum
+                                # is rounded, so a mean within that round-off
+                                # of a tie may fall on either side
+                                eps = Fraction(max(abs(v) for v in vals)
+                                               ) / 2 ** 45
+                                ok = g in (dtype_ref.to_int_type(
+                                    m - eps, case["dtype"]),
+                                    dtype_ref.to_int_type(
+                                        m + eps, case["dtype"]))
                     if not ok:
                         ctx.fail("%s%s %s: output[%d,%d,%d,%d]=%r, exact "
                                  "reference %r from block %r (outside=%r)" % (
